@@ -1,13 +1,18 @@
 #!/bin/sh
-# confirm and keep every seeded change under /tmp/mut (verify in a scratch worktree, then apply to /repo, run the owning
-# property's quick check, undo) - sequential, /repo must not be used by anything else meanwhile
+# confirm and keep every seeded change under $1 (default /tmp/mut): verify in a scratch worktree, then apply to /repo, run
+# the owning property's quick check, undo - sequential, /repo must not be used by anything else meanwhile.
+# $2 = offset added to the change number in the kept name (round 2: 2, so m1 -> <ID>-m3)
+SRC=${1:-/tmp/mut}; OFF=${2:-0}
 cd /verif
 for pid in C01 C02 C03 C04 C05 C06 C07 C08 C09 C10 C11 C12 C13 C14 C15 C16 C17 C18 C19 C20; do
-  for m in m1 m2; do
-    d=/tmp/mut/$pid/$m
+  for k in 1 2; do
+    d=$SRC/$pid/m$k
     [ -f $d/patch.diff ] || continue
-    echo "== $pid-$m"
-    tools/mutant.py keep $d $pid $pid-$m 2>&1 | tail -2 | cut -c1-400
+    name=$pid-m$((k + OFF))
+    also=""
+    [ -f $d/also ] && also=$(cat $d/also)
+    echo "== $name"
+    tools/mutant.py keep $d $pid $name quick $also 2>&1 | tail -2 | cut -c1-400
     git -C /repo status --porcelain --untracked-files=no | head -3
   done
 done
